@@ -176,20 +176,36 @@ Print Assumptions C12_response_types_both_sides.
         C08/C09).  Every observation point (provider session, token response, JWT access token, introspection,
         userinfo, ID Token, relying party) shows a projection of that record, so all views agree, for ALL users,
         clients, scopes, nonces, times and lifetimes.  Both clocks read `now`; see C12_rp_expiry_skew otherwise. *)
-Theorem C12_views_model : forall sub_of filter_scopes user client req_scope nonce now at_life idt_life has_token at_jwt,
+Theorem C12_views_model : forall sub_of filter_scopes user client req_scope nonce now at_life idt_life at_jwt,
   let s := authorize sub_of filter_scopes user client req_scope nonce now at_life idt_life in
-  all_agree (all_views has_token at_jwt s now now) = true
-  /\ (forall v, In v (all_views has_token at_jwt s now now) -> projects s v)
-  /\ v_sub (view_rp has_token s now now) = Some (sub_of user client)
-  /\ v_scope (view_rp has_token s now now) = Some (filter_scopes client req_scope)
-  /\ v_nonce (view_rp has_token s now now) = nonce
-  /\ v_client (view_rp has_token s now now) = Some client.
+  all_agree (all_views true at_jwt s now now) = true
+  /\ (forall v, In v (all_views true at_jwt s now now) -> projects s v)
+  /\ all_agree (map forget_idt_exp (all_views false at_jwt s now now)) = true
+  /\ (forall has_token,
+       v_sub (view_rp has_token s now now) = Some (sub_of user client)
+       /\ v_scope (view_rp has_token s now now) = Some (filter_scopes client req_scope)
+       /\ v_nonce (view_rp has_token s now now) = nonce
+       /\ v_client (view_rp has_token s now now) = Some client).
 Proof. exact views_model. Qed.
 Print Assumptions C12_views_model.
 
-Theorem C12_views_agree : forall has_token at_jwt s now, all_agree (all_views has_token at_jwt s now now) = true.
+(* flows through the token endpoint: all views agree, for every session record and time *)
+Theorem C12_views_agree : forall at_jwt s now, all_agree (all_views true at_jwt s now now) = true.
 Proof. exact views_agree. Qed.
 Print Assumptions C12_views_agree.
+
+(* Full statement for flows WITHOUT the token endpoint (response type id_token) is false of the faithful model:
+     Theorem C12_views_agree_implicit_full : forall at_jwt s now, all_agree (all_views false at_jwt s now now) = true.
+   the session database records expires_at = 0 for an ID Token minted at the authorization endpoint. *)
+Theorem C12_views_agree_implicit_partial : forall at_jwt s now,
+  all_agree (map forget_idt_exp (all_views false at_jwt s now now)) = true
+  /\ all_agree [view_id_token s; view_rp false s now now] = true.
+Proof. exact views_agree_implicit. Qed.
+Print Assumptions C12_views_agree_implicit_partial.
+
+Theorem C12_views_agree_implicit_refuted : exists s, all_agree (all_views false false s 0 0) = false.
+Proof. exact views_agree_implicit_refuted. Qed.
+Print Assumptions C12_views_agree_implicit_refuted.
 
 (* the relying party computes __expires_at from ITS clock: it is off by exactly the clock difference *)
 Theorem C12_rp_expiry_skew : forall s now_op now_rp,
